@@ -213,11 +213,13 @@ def rwaveform(rng, n):
 def rpath(rng, used, ext_required=True):
     for _ in range(50):
         r = rng.random()
-        d = rng.choice(["", "../01 - Some Artist/", "music/sub dir/", "../../a/b/c/", "Ünïcode/日本/"])
-        stem = rng.choice(["track", "01 - Title", "x", "ünï", "a.b.c", "name with spaces"]) + str(rng.randrange(100000))
+        d = rng.choice(["", "../01 - Some Artist/", "music/sub dir/", "../../a/b/c/", "Ünïcode/日本/", "../Music/AC\\DC/", "dir.v2/",
+                        "C:\\Users\\dj\\Music/", "100%41 #1?/", "it's \"quoted\";/"])
+        stem = rng.choice(["track", "01 - Title", "x", "ünï", "a.b.c", "name with spaces", "AC\\DC - Back In Black ", ".hidden", "a.tar",
+                           "what? #1 100%41 ", "semi;colon's \"q\" ", "back\\", "\\front"]) + str(rng.randrange(100000))
         ext = rng.choice([".mp3", ".flac", ".wav", ".MP3", ".ogg", ".aiff", ".m4a"])
         if not ext_required and r < 0.1:
-            ext = ""
+            ext = ""   # a file without extension (possibly below a directory that has a dot: "dir.v2/name")
         p = (d + stem + ext).encode().hex()
         if p not in used:
             used.add(p)
@@ -240,7 +242,7 @@ def gen_snapshot(rng, schema, rich=False, big=False, hostile_sentinels=True, all
     def present():
         return rng.random() >= p_absent
 
-    s["relative_path"] = rpath(rng, used_s)
+    s["relative_path"] = rpath(rng, used_s, ext_required=not borderline)
     for f in STRING_FIELDS:
         if present():
             s[f] = rstring(rng, f, used_s, allow_nul)
